@@ -6,6 +6,7 @@
 pub mod msg;
 pub mod cand;
 pub mod turn;
+pub mod agent;
 
 use crate::{Args, Rng, Run, hex};
 use msg::*;
@@ -265,6 +266,8 @@ pub fn run(args: &Args) {
     cand::run_all(&mut run, &mut rng, thorough);
     // (7) TURN
     turn::run_all(&mut run, &mut rng, thorough);
+    // (7b) the agent's own check order and messages
+    agent::run_all(&mut run, &mut rng, thorough);
     // (8) ICE server URIs (RFC 7064 / 7065)
     uri_cases(&mut run, &mut rng, thorough);
 
